@@ -23,4 +23,5 @@ INVARIANT StopInv
 INVARIANT NestedInv
 INVARIANT TypeOK
 INVARIANT ScriptInv
+PROPERTY Refines
 CHECK_DEADLOCK FALSE
